@@ -104,7 +104,11 @@ def _mk_body(sname, scfg, rig: Rig):
         rig.counters[base] = nth + 1
         key = (sname, uid, retry, nth)
         rig.live[sname] = rig.live.get(sname, 0) + 1
-        rig.log({"e": "step_start", "step": sname, "uid": uid, "ty": ty, "retry": retry, "nth": nth,
+        sf = {"step": "", "attempts": -1, "elapsed_ms": -1, "exc": ""}
+        if ty == "Failed":
+            sf = {"step": ev.step_name, "attempts": int(ev.attempts), "elapsed_ms": int(round(ev.elapsed_seconds * 1000)),
+                  "exc": type(ev.exception).__name__}
+        rig.log({"e": "step_start", "step": sname, "uid": uid, "ty": ty, "retry": retry, "nth": nth, "sf": sf,
                  "live": rig.live[sname], "depth": uid.count("F("),
                  "ri_elapsed_ms": int(round(ri.elapsed_seconds * 1000)),
                  "ri_last_exc": type(ri.last_exception).__name__ if ri.last_exception is not None else "none"})
@@ -117,7 +121,7 @@ def _mk_body(sname, scfg, rig: Rig):
                 elif o == "send":
                     for i in range(op.get("n", 1)):
                         cls = E.TYPES[op["ty"]]
-                        ctx.send_event(cls(uid="%s.%s%d" % (uid, sname, i), k=i), step=op.get("target"))
+                        ctx.send_event(cls(uid="%s.%s%s%d" % (uid, sname, op["ty"], i), k=i), step=op.get("target"))
                 elif o == "publish":
                     ctx.write_event_to_stream(E.TYPES[op["ty"]](uid="%s!%s" % (uid, sname)))
                 elif o == "collect":
